@@ -103,7 +103,7 @@ def workflow_progress(wf: Workflow) -> tuple:
     return (sum(len(p.token_list) for p in wf.ports.values()), sum(1 for st in wf.steps.values() if st.terminated))
 
 
-def stall_report(wf: Workflow, live: list[str], limit: int = 14) -> str:
+def stall_report(wf: Workflow, live: list[str], limit: int = 60) -> str:
     """what every live step of a stalled workflow is waiting for: the tail of each input port's log and what is still queued"""
     lines = []
     for name in live:
